@@ -1,13 +1,13 @@
-\* random walks: 9 base coins (coinbase, four key scopes = four address types, two accounts, one payment to an imported key), <= 4 created transactions (chains of
+\* random walks: 10 base coins (coinbase, four key scopes = four address types, two accounts, two payments to imported keys of two scopes), <= 4 created transactions (chains of
 \* unconfirmed change spends), <= 4 blocks, locks and leases on every coin
 CONSTANTS
-  NBase = 9
+  NBase = 10
   MaxSends = 4
   MaxTip = 4
   Mat = 2
   Answers = {"accepted", "inmempool", "rejected", "notifyfail1", "notifyfail2", "badlabel"}
-  Acts = {"Receive", "Mine", "Lock", "Lease", "Send", "SendExplicit", "SendSelf", "FundOwn", "DryRun", "Restart", "RestartRej"}
-  LockCoins = {1, 2, 3, 5, 7, 10, 11}
+  Acts = {"Receive", "Mine", "Lock", "Lease", "Send", "SendExplicit", "SendSelf", "FundOwn", "DryRun", "Restart", "RestartRej", "Resync", "ResyncRej"}
+  LockCoins = {1, 2, 3, 5, 7, 9, 11, 12}
   MaxHist = 28
   FullHist = TRUE
 INIT Init
